@@ -13,7 +13,9 @@ TRACKING = ["utm_source=x", "utm_medium=social", "fbclid=IwAR0", "sessionid=abc"
             "ref=tw", "platform=hootsuite", "fromref=twitter", "mode=amp", "output=amp", "outputType=AMP", "marfeeltn=amp", "spref=fb"]
 # the quick tier takes one item of every KIND (plain key, prefix pattern, session id, AMP key, AMP prefix, key=value combination, AMP combination, upper case)
 TRACKING_QUICK = ["utm_source=x", "fbclid=IwAR0", "sessionid=abc", "jsessionid=1", "amp=1", "amp_js_v=0.1", "ref=fb", "platform=hootsuite", "mode=amp", "outputType=AMP", "UTM_CAMPAIGN=z", "_ga=1"]
-TWIN = {"a": "%61", "é": "%c3%a9", "%C3%A9": "é", "B": "%42", "~": "%7e", "%7E": "~"}
+TWIN = {"a": "%61", "é": "%c3%a9", "%C3%A9": "é", "B": "%42", "~": "%7e", "%7E": "~",
+        # invisible but meaningful characters (zero-width non-joiner / space, word joiner, BOM inside a URL): content, raw or escaped
+        "\u200c": "%E2%80%8C", "\u200b": "%e2%80%8b", "\u2060": "%E2%81%A0", "\ufeff": "%EF%BB%BF"}
 
 
 def respell(text, raw, esc):
@@ -39,6 +41,8 @@ class Base(object):
         self.frag = frag
         self.sep = "&"
         self.wrap = ("", "")
+        # the path IS the payload (what follows a cache marker is the cached URL): the path variations would change it
+        self.opaque_path = False
 
     def copy(self, **kw):
         b = Base(self.host, self.path, self.items, self.frag)
@@ -74,7 +78,7 @@ def transforms(b, rnd, tier):
     yield "explicit-port-80", b.copy(port=":80")
     yield "explicit-port-443", b.copy(scheme="https://", port=":443")
     yield "host-case", b.copy(host=b.host.upper())
-    if b.path not in ("", "/"):
+    if b.path not in ("", "/") and not b.opaque_path:
         if b.path.endswith("/"):
             yield "trailing-slash-removed", b.copy(path=b.path[:-1])
         elif "." not in b.path.rsplit("/", 1)[-1]:
@@ -82,13 +86,16 @@ def transforms(b, rnd, tier):
     if b.path == "":
         yield "root-slash", b.copy(path="/")
     last = b.path.rsplit("/", 1)[-1]
-    if "." not in last:
+    if "." not in last and not b.opaque_path:
         base = b.path if b.path.endswith("/") else b.path + "/"
         for idx in ("index.html", "index.php", "default.aspx", "index"):
             yield "index-page:" + idx, b.copy(path=base + idx)
     if b.frag is None:
         yield "non-routing-fragment", b.copy(frag="section-2")
         yield "empty-fragment", b.copy(frag="")
+        # a non-routing fragment whose TEXT looks like what the redirection guards look for (it is never sent to a server)
+        for decoy in ("x/redirect", "x/url?q=1", "youtube.com/redirect?q=1", "x&url=http://c.com/", "x.cdn.ampproject.org/c/s/c.com/"):
+            yield "non-routing-fragment", b.copy(frag=decoy)
     for t in (TRACKING if tier == "thorough" else TRACKING_QUICK + [rnd.choice(TRACKING)]):
         for pos in range(len(b.items) + 1):
             yield "tracking-item:" + t.split("=")[0].lower(), b.copy(items=b.items[:pos] + [t] + b.items[pos:])
@@ -112,6 +119,9 @@ def transforms(b, rnd, tier):
         if it[:1].isalpha():
             # the first letter of the KEY written as an escape ('%75rl' is 'url', '%75tm_source' is 'utm_source')
             yield "escape-spelling-key", b.copy(items=b.items[:i] + ["%%%02X" % ord(it[0]) + it[1:]] + b.items[i + 1:])
+            k = it.split("=", 1)[0]
+            if "_" in k:
+                yield "escape-spelling-key", b.copy(items=b.items[:i] + [k.replace("_", "%5F", 1) + it[len(k):]] + b.items[i + 1:])
     for raw, esc in TWIN.items():
         r = respell(b.path, raw, esc)
         if r is not None:
@@ -152,6 +162,8 @@ def bases():
     for items in (["id=7", "_rdr"], ["v=1", "t=10", "si=abc"], ["ab_channel=x", "q=1"]):
         out.append(Base("a.com", "/watch", items))
         out.append(Base("blog.a.co.uk", "/p", items))
+    out.append(Base("a.com", "/wiki/mi\u200cxaham", ["q=a\u200bb", "r=\u2060x"]))
+    out.append(Base("a.com", "/a\ufeffb/", ["id=1"], "!/ro\u200cute"))
     # ... and dropped on their own hosts, whichever irrelevant spelling the host comes in
     out.append(Base("youtube.com", "/watch", ["v=abc12345678", "t=10", "ab_channel=x"]))
     out.append(Base("facebook.com", "/p", ["id=7", "_rdr"]))
@@ -162,6 +174,11 @@ def bases():
     out.append(Base("b-com.cdn.ampproject.org", "/c/s/b.com/a", ["id=1"]))
     out.append(Base("google.com", "/url", ["q=https://b.com/a/", "sa=D"]))
     out.append(Base("bc.marfeel.com", "/b.com/a", []))
+    # a cache URL with nothing cached behind the marker, a "q" item that is an ordinary one, a scheme-less value on an ordinary host
+    out.append(Base("x.cdn.ampproject.org", "/c/s/", []).copy(opaque_path=True))
+    out.append(Base("a.com", "/search", ["q=http://b.com/x"]))
+    out.append(Base("a.com", "/r", ["q=b.com/x", "v=1"]))
+    out.append(Base("a.com", "/r", ["redirect_to=http%3A%2F%2Fb.com%2Fx"]))
     out.append(Base("a.com", "/a", ["id=1"], "/route"))
     out.append(Base("a.com", "/a", [], "!/route"))
     return out
